@@ -21,43 +21,23 @@ func (t *Teamserver) ListenerStart(ListenerType int, info any) error {
 	var (
 		ListenerConfig any
 		ListenerName   string
+		HTTPConfig     *handlers.HTTP
+		SmbConfig      *handlers.SMB
+		ExtConfig      *handlers.External
 	)
 
-	for _, listener := range t.Listeners {
-		var Name string
-
-		switch ListenerType {
-		case handlers.LISTENER_HTTP:
-			Name = info.(handlers.HTTPConfig).Name
-			break
-
-		case handlers.LISTENER_PIVOT_SMB:
-			Name = info.(handlers.SMBConfig).Name
-			break
-
-		case handlers.LISTENER_EXTERNAL:
-			Name = info.(handlers.ExternalConfig).Name
-			break
-		}
-
-		if Name == listener.Name {
-			return errors.New("listener already exists")
-		}
-	}
-
+	// build the handler first, then reserve the name and start it
 	switch ListenerType {
 
 	case handlers.LISTENER_HTTP:
-		var HTTPConfig = handlers.NewConfigHttp()
 		var config = info.(handlers.HTTPConfig)
 
+		HTTPConfig = handlers.NewConfigHttp()
 		HTTPConfig.Config = config
 
 		HTTPConfig.Config.Secure = config.Secure
 		// HTTPConfig.RoutineFunc = Functions
 		HTTPConfig.Teamserver = t
-
-		HTTPConfig.Start()
 
 		ListenerConfig = HTTPConfig
 		ListenerName = config.Name
@@ -65,14 +45,11 @@ func (t *Teamserver) ListenerStart(ListenerType int, info any) error {
 		break
 
 	case handlers.LISTENER_PIVOT_SMB:
-		var SmbConfig = handlers.NewPivotSmb()
+		SmbConfig = handlers.NewPivotSmb()
 
 		SmbConfig.Config = info.(handlers.SMBConfig)
 		// SmbConfig.RoutineFunc = Functions
 		SmbConfig.Teamserver = t
-
-		// this only prints a message and lets the client now that it is ready to use
-		SmbConfig.Start()
 
 		ListenerConfig = SmbConfig
 		ListenerName = SmbConfig.Config.Name
@@ -80,25 +57,26 @@ func (t *Teamserver) ListenerStart(ListenerType int, info any) error {
 		break
 
 	case handlers.LISTENER_EXTERNAL:
-		var (
-			ExtConfig = handlers.NewExternal(t.Server.Engine, info.(handlers.ExternalConfig))
-			endpoint  = new(Endpoint)
-		)
+		ExtConfig = handlers.NewExternal(t.Server.Engine, info.(handlers.ExternalConfig))
 
 		// ExtConfig.RoutineFunc = Functions
 		ExtConfig.Teamserver = t
-
-		ExtConfig.Start()
-
-		endpoint.Endpoint = ExtConfig.Config.Endpoint
-		endpoint.Function = ExtConfig.Request
-
-		t.EndpointAdd(endpoint)
 
 		ListenerConfig = ExtConfig
 		ListenerName = info.(handlers.ExternalConfig).Name
 
 		break
+	}
+
+	// check the name, take it and announce the listener in one step: adds and removes of
+	// listeners (two operators, remove right after add) must not interleave
+	t.ListenersMtx.Lock()
+	defer t.ListenersMtx.Unlock()
+
+	for _, listener := range t.Listeners {
+		if ListenerName == listener.Name {
+			return errors.New("listener already exists")
+		}
 	}
 
 	t.Listeners = append(t.Listeners, &Listener{
@@ -107,10 +85,32 @@ func (t *Teamserver) ListenerStart(ListenerType int, info any) error {
 		Config: ListenerConfig,
 	})
 
+	switch ListenerType {
+
+	case handlers.LISTENER_HTTP:
+		HTTPConfig.Start()
+
+	case handlers.LISTENER_PIVOT_SMB:
+		// this only prints a message and lets the client now that it is ready to use
+		SmbConfig.Start()
+
+	case handlers.LISTENER_EXTERNAL:
+		var endpoint = new(Endpoint)
+
+		ExtConfig.Start()
+
+		endpoint.Endpoint = ExtConfig.Config.Endpoint
+		endpoint.Function = ExtConfig.Request
+
+		t.EndpointAdd(endpoint)
+	}
+
 	return nil
 }
 
 func (t *Teamserver) ListenerExist(Name string) bool {
+	t.ListenersMtx.Lock()
+	defer t.ListenersMtx.Unlock()
 
 	for _, l := range t.Listeners {
 		if l.Name == Name {
@@ -122,12 +122,16 @@ func (t *Teamserver) ListenerExist(Name string) bool {
 }
 
 func (t *Teamserver) ListenerGetInfo(Name string) map[string]any {
+	t.ListenersMtx.Lock()
+	defer t.ListenersMtx.Unlock()
 
 	for _, listener := range t.Listeners {
 		if listener.Name == Name {
 			switch listener.Type {
 			case handlers.LISTENER_HTTP:
-				return structs.Map(listener.Config.(*handlers.HTTP).Config)
+				if h, ok := listener.Config.(*handlers.HTTP); ok {
+					return structs.Map(h.Config)
+				}
 
 			case handlers.LISTENER_EXTERNAL:
 				break
@@ -141,54 +145,78 @@ func (t *Teamserver) ListenerGetInfo(Name string) map[string]any {
 	return nil
 }
 
-func (t *Teamserver) ListenerRemove(Name string) ([]*Listener, []packager.Package) {
+// listenerTake
+// removes the listener with the given name from the listener list and returns it (nil if there is none).
+// the caller holds ListenersMtx.
+func (t *Teamserver) listenerTake(Name string) *Listener {
 	for i := range t.Listeners {
 		if t.Listeners[i].Name == Name {
-
-			switch t.Listeners[i].Config.(type) {
-			case *handlers.HTTP:
-				err := t.Listeners[i].Config.(*handlers.HTTP).Stop()
-				if err != nil {
-					var pk = events.Listener.ListenerError("", t.Listeners[i].Name, err)
-
-					t.EventAppend(pk)
-					t.EventBroadcast("", pk)
-				}
-
-			case *handlers.External:
-				t.EndpointRemove(t.Listeners[i].Config.(*handlers.External).Config.Endpoint)
-			}
-
-			// remove the listener from our database
-			err := t.DB.ListenerRemove(Name)
-			if err != nil {
-				logger.Error("Failed to remove listener: ", Name)
-				return t.Listeners, t.EventsList
-			}
-
+			var listener = t.Listeners[i]
 			t.Listeners = append(t.Listeners[:i], t.Listeners[i+1:]...)
+			return listener
+		}
+	}
 
-			// drop every retained Add event of this listener (the operator's request and the
-			// listener's own announcement), walking backwards so that removal keeps the indices valid
-			t.EventsMtx.Lock()
-			defer t.EventsMtx.Unlock()
+	return nil
+}
 
-			for EventID := len(t.EventsList) - 1; EventID >= 0; EventID-- {
-				if t.EventsList[EventID].Head.Event == packager.Type.Listener.Type {
-					if t.EventsList[EventID].Body.SubEvent == packager.Type.Listener.Add {
-						if name, ok := t.EventsList[EventID].Body.Info["Name"]; ok {
-							if name == Name {
-								t.EventsList = append(t.EventsList[:EventID], t.EventsList[EventID+1:]...)
-							}
-						}
+func (t *Teamserver) ListenerRemove(Name string) ([]*Listener, []packager.Package) {
+	// take it out of the list first: stopping an HTTP listener takes seconds, and a second
+	// remove (or an add) arriving meanwhile must not work on stale indexes
+	t.ListenersMtx.Lock()
+
+	var listener = t.listenerTake(Name)
+	if listener == nil {
+		t.ListenersMtx.Unlock()
+		logger.Error("Listener not found: ", Name)
+		return t.Listeners, t.EventsList
+	}
+
+	if config, ok := listener.Config.(*handlers.External); ok {
+		t.EndpointRemove(config.Config.Endpoint)
+	}
+
+	// remove the listener from our database
+	err := t.DB.ListenerRemove(Name)
+	if err != nil {
+		logger.Error("Failed to remove listener: ", Name)
+	}
+
+	// drop every retained Add event of this listener (the operator's request and the
+	// listener's own announcement), walking backwards so that removal keeps the indices valid
+	t.EventsMtx.Lock()
+	for EventID := len(t.EventsList) - 1; EventID >= 0; EventID-- {
+		if t.EventsList[EventID].Head.Event == packager.Type.Listener.Type {
+			if t.EventsList[EventID].Body.SubEvent == packager.Type.Listener.Add {
+				if name, ok := t.EventsList[EventID].Body.Info["Name"]; ok {
+					if name == Name {
+						t.EventsList = append(t.EventsList[:EventID], t.EventsList[EventID+1:]...)
 					}
 				}
 			}
-
-			return t.Listeners, t.EventsList
 		}
 	}
-	logger.Error("Listener not found: ", Name)
+	t.EventsMtx.Unlock()
+
+	// tell the operators before the name can be taken again, so that the removal can't
+	// be recorded after (and thereby cancel) the announcement of a later listener of that name
+	var pk = events.Listener.ListenerRemove(Name)
+
+	t.EventAppend(pk)
+	t.EventBroadcast("", pk)
+
+	t.ListenersMtx.Unlock()
+
+	// stop the server last: shutting down takes seconds, and the name is free again by now
+	if config, ok := listener.Config.(*handlers.HTTP); ok {
+		err := config.Stop()
+		if err != nil {
+			var pk = events.Listener.ListenerError("", listener.Name, err)
+
+			t.EventAppend(pk)
+			t.EventBroadcast("", pk)
+		}
+	}
 
 	return t.Listeners, t.EventsList
 }
@@ -199,14 +227,20 @@ func (t *Teamserver) ListenerEdit(Type int, Config any) {
 
 	case handlers.LISTENER_HTTP:
 
+		t.ListenersMtx.Lock()
+		defer t.ListenersMtx.Unlock()
+
 		for i := range t.Listeners {
 
 			if t.Listeners[i].Name == Config.(handlers.HTTPConfig).Name {
-				t.Listeners[i].Config.(*handlers.HTTP).Config.UserAgent = Config.(handlers.HTTPConfig).UserAgent
-				t.Listeners[i].Config.(*handlers.HTTP).Config.Headers = Config.(handlers.HTTPConfig).Headers
-				t.Listeners[i].Config.(*handlers.HTTP).Config.Uris = Config.(handlers.HTTPConfig).Uris
-				t.Listeners[i].Config.(*handlers.HTTP).Config.Proxy = Config.(handlers.HTTPConfig).Proxy
-				t.Listeners[i].Config.(*handlers.HTTP).Config.BehindRedir = t.Profile.Config.Demon.TrustXForwardedFor
+				// an edit that names a listener of another kind is ignored
+				if h, ok := t.Listeners[i].Config.(*handlers.HTTP); ok {
+					h.Config.UserAgent = Config.(handlers.HTTPConfig).UserAgent
+					h.Config.Headers = Config.(handlers.HTTPConfig).Headers
+					h.Config.Uris = Config.(handlers.HTTPConfig).Uris
+					h.Config.Proxy = Config.(handlers.HTTPConfig).Proxy
+					h.Config.BehindRedir = t.Profile.Config.Demon.TrustXForwardedFor
+				}
 			}
 
 		}
@@ -351,10 +385,6 @@ func (t *Teamserver) ListenerServiceExc2Add(Name, ExEndpoint string, client *ser
 		ExtConfig *handlers.External
 	)
 
-	if t.ListenerExist(Name) {
-		return errors.New("listener with that name already exist")
-	}
-
 	// create a new external C2 instance
 	ExtConfig = handlers.NewExternal(t.Server.Engine, Config)
 	ExtConfig.Teamserver = t
@@ -362,16 +392,24 @@ func (t *Teamserver) ListenerServiceExc2Add(Name, ExEndpoint string, client *ser
 		"client": client,
 	}
 
-	t.EndpointAdd(&Endpoint{
-		Endpoint: ExtConfig.Config.Endpoint,
-		Function: ExtConfig.Request,
-	})
-
-	// add this exc2 listener to the teamserver listener list
+	// add this exc2 listener to the teamserver listener list (name check and append in one step)
+	t.ListenersMtx.Lock()
+	for _, l := range t.Listeners {
+		if l.Name == Name {
+			t.ListenersMtx.Unlock()
+			return errors.New("listener with that name already exist")
+		}
+	}
 	t.Listeners = append(t.Listeners, &Listener{
 		Name:   Name,
 		Type:   handlers.LISTENER_EXTERNAL,
 		Config: ExtConfig,
+	})
+	t.ListenersMtx.Unlock()
+
+	t.EndpointAdd(&Endpoint{
+		Endpoint: ExtConfig.Config.Endpoint,
+		Function: ExtConfig.Request,
 	})
 
 	return nil
@@ -380,19 +418,27 @@ func (t *Teamserver) ListenerServiceExc2Add(Name, ExEndpoint string, client *ser
 // ListenerServiceExc2RemoveAll
 // removes every external c2 listener (and its endpoint) that has been started by the given service connection.
 func (t *Teamserver) ListenerServiceExc2RemoveAll(client *service.ClientService) {
-	var Listeners []*Listener
+	var (
+		Listeners []*Listener
+		Endpoints []string
+	)
 
+	t.ListenersMtx.Lock()
 	for _, listener := range t.Listeners {
 		if ExtConfig, ok := listener.Config.(*handlers.External); ok && ExtConfig.Data != nil {
 			if owner, ok := ExtConfig.Data["client"].(*service.ClientService); ok && owner == client {
-				t.EndpointRemove(ExtConfig.Config.Endpoint)
+				Endpoints = append(Endpoints, ExtConfig.Config.Endpoint)
 				continue
 			}
 		}
 		Listeners = append(Listeners, listener)
 	}
-
 	t.Listeners = Listeners
+	t.ListenersMtx.Unlock()
+
+	for _, endpoint := range Endpoints {
+		t.EndpointRemove(endpoint)
+	}
 }
 
 // ListenerStartNotify
